@@ -1,6 +1,9 @@
 from checklib.registry import generic, COMMON_NOTE
+from checklib import steps
 
-CHECK = generic("C02", [dict(harness="tree", area="treebal", timeout=900)])
+CHECK = generic("C02", [dict(harness="tree", area="treebal", timeout=900),
+                        dict(harness="tree", area="rbptr", name="tree-ptr", timeout=900)],
+                pregen=steps.pregen_rbtreego)
 
 MANIFEST = dict(
     text=("Theorems in Lean 4 (Ekit/Props/C02.lean) about the functional red-black tree that mirrors internal/tree: the invariant "
